@@ -242,6 +242,24 @@ fn main() {
                 Err(_) => std::process::exit(3),
             }
         }
+        "flowcheck" => {
+            // vmon flowcheck <input.json>: start solution vs independent optimum per type (debugging aid)
+            let input: serde_json::Value = serde_json::from_slice(&std::fs::read(&args[2]).expect("read input")).expect("input json");
+            let b = bridge::Bridge::new(&input).expect("bridge");
+            let start = solver::min_cost_flow_solver::MinCostFlowSolver::initialize(b.net.clone()).solve();
+            let obs = bridge::Obs::of(&b, &start);
+            for t in 0..b.inst.types.len() {
+                let tours: Vec<&bridge::TourObs> = obs.vehicles.values().filter(|x| x.vtype == Some(t)).collect();
+                let cost: i128 = tours.iter().map(|x| b.inst.tour_costs(&x.nodes)).sum();
+                let opt = refmodel::flow::optimum_for_type(&b.inst, t, &[]);
+                eprintln!("type {}: start solution {} vehicles cost {}, optimum {:?}", b.inst.types[t].id, tours.len(), cost, opt);
+            }
+        }
+        "genchain" => {
+            let seed: u64 = args[2].parse().unwrap();
+            let mut r = rng::Rng::new(seed);
+            println!("{}", serde_json::to_string(&gen::chain_network(&mut r, &format!("g{}", seed))).unwrap());
+        }
         "gen" => {
             // vmon gen <profile> <seed> <max_dep>: print one instance (debugging aid)
             let p = gen::Profile::from_name(&args[2]).expect("profile");
